@@ -7,6 +7,7 @@ package main
 
 import (
 	"encoding/json"
+	"flag"
 	"fmt"
 	"math/rand"
 	"os"
@@ -341,8 +342,66 @@ func genPath(r *rand.Rand) string {
 
 const header = "From Coq Require Import List Bool Arith String Ascii.\nImport ListNotations.\nFrom Mv Require Import Common.Bytes Model.Entry Model.IgnoreScan Model.IgnoreMutagen Harness.IgnoreMutagenH.\nOpen Scope string_scope.\nOpen Scope list_scope."
 
+var propFlag = flag.String("prop", "C14", "C14, or C03 for the scan premise of C03 (ignored content never becomes synchronizable content of a snapshot)")
+
+// mainC03 is the "-prop C03" mode: scans of real trees with the Mutagen-style
+// ignorer (optionally wrapped by IgnoreVCS), judged by Harness/ScanIgnoredH.v.
+func mainC03(cfg *hx.Config) {
+	w := hx.NewWriter(cfg, igntree.C03Header, "c3case", "c03scan_failures", 150)
+	w.Rule = igntree.C03Rule
+	add := func(c Case, origin string) {
+		if w.Aborted || c.Tree == nil {
+			return
+		}
+		var coq string
+		var nt bool
+		var tags []string
+		if w.Guard(c, 5*time.Second, func() {
+			ig, err := newIgnorer(c.Raws, c.Vcs)
+			if err != nil {
+				panic(err)
+			}
+			coq, nt, tags = igntree.C03Case(c.Tree, ig)
+		}) {
+			w.Add(hx.Case{Coq: coq, Replay: c, Nontrivial: nt, Tags: append(tags, "syntax:mutagen"), Origin: origin})
+		}
+	}
+	if cfg.Replay != "" {
+		b, err := os.ReadFile(cfg.Replay)
+		if err != nil {
+			panic(err)
+		}
+		var wrapper struct {
+			Case Case `json:"case"`
+		}
+		if err := json.Unmarshal(b, &wrapper); err != nil {
+			panic(err)
+		}
+		add(wrapper.Case, "replay")
+		w.Close()
+		return
+	}
+	r := cfg.Rand
+	scale := 1
+	if cfg.Thorough() {
+		scale = 25
+	}
+	for t := 0; t < 30*scale; t++ {
+		tree := igntree.Random(r, 4, 4, igntree.Names)
+		for j := 0; j < 6; j++ {
+			add(Case{K: "scan", Raws: genValidPatterns(r, 4), Vcs: r.Intn(3) == 0, Tree: tree}, "random")
+		}
+	}
+	w.Close()
+	fmt.Printf("cases %d\n", w.Total())
+}
+
 func main() {
 	cfg := hx.Parse()
+	if *propFlag == "C03" {
+		mainC03(cfg)
+		return
+	}
 	w := hx.NewWriter(cfg, header, "mcase", "ignm_failures", 200)
 	w.Rule = "a case = one call of the real code with its result: doublestar.Match (glob), newIgnorePattern (parse), NewIgnorer+Ignore with or without IgnoreVCS (ignore), core.Scan of a real temporary tree (scan), the VCS name table (vcs); distinct = distinct Coq terms; non-trivial = glob: a pattern with a wildcard or class that matches; parse: cleaning changed the pattern; ignore: patterns of both polarities match the path (last-match-wins decides); scan: at least one directory was pruned"
 	add := func(c Case, origin string) {
